@@ -69,7 +69,7 @@ try:
     rc, out = run(['patch', '-p1', '--no-backup-if-mismatch', '-d', scratch, '-i', os.path.join(dst, 'patch.diff')], '/verif')
     assert rc == 0, out
     meta['check_with_change'] = {}
-    env_cmd = ['env', 'PYVC_REPO=' + scratch]
+    env_cmd = ['env', 'PYVC_REPO=' + scratch, 'PYVC_BATTERY_EXCLUDE=' + name]  # its own demonstration must not be what catches it
     for pr in prop.split(','):
         rc, out = run(env_cmd + ['bin/check', pr, '--no-evidence'], '/verif', 3000)
         lines = [l for l in out.splitlines() if l.startswith(('VIOLATION', 'failed obligation', 'UNDECIDED', 'CHECKER', pr + ':', 'undecided obligations'))]
